@@ -7,7 +7,7 @@ SPEC = dict(
         "tiers of ReconcileOrphanedFiles, the phase order of RunMigrationCycle and the tier-selection table of "
         "buildMultiTierReadParquet. Reachable = any history of migrate / reconcile / scan operations, each under an "
         "arbitrary fault oracle (a crash at any mutation incl. every chunk of the copy, any combination of step "
-        "failures, retries), any file size. PROVED for all reachable states: C12_readable (the tier the metadata "
+        "failures incl. source-read failures of the streaming copy, retries, ageing past the 48 h reconcile window), any file size. PROVED for all reachable states: C12_readable (the tier the metadata "
         "points to holds the complete file), C12_readable_some_tier, C12_visible (a multi-tier query returns the rows "
         "at least once, whatever other files the measurement has); C12_once_migration (a fault-free migration/retry "
         "ends with exactly one visible copy); C12_once_cycle (a fault-free RunMigrationCycle from any reachable state "
@@ -37,7 +37,7 @@ SPEC = dict(
         "factgen resolves srcBackend/dstBackend/candidate.*Tier through FindCandidates' direction guard; hand-written shape expectations in go/factgen/cmd/c12",
     ],
     assumptions=[
-        "reconciliation runs within reconcileWindow (48 h, extracted) of the metadata update; older rows are not enumerated by GetRecentlyMigratedFiles",
+        "the reconciliation-only clause is claimed inside reconcileWindow (48 h, extracted): FileSt.recent models migrated_at vs the window and an `age` event lets it expire; a hot orphan older than the window is NOT removed by ReconcileOrphanedFiles but by the next cycle, whose scan re-registers the hot object as hot (generated fact scanSkipsRegistered = false) and gets it re-migrated — C12_once_cycle proves exactly-once after every clean cycle with ageing anywhere in the history, and the harness ages migrated_at by 49 h after every crash point before cycle/reconcile/retry",
         "'finished' = the operation ran to completion without an injected fault: MigrateTier reports 1 migrated / 0 errors, ReconcileOrphanedFiles reports 0 errors; a migration that tolerated a failed source delete is not 'finished' until the reconciliation has run",
     ],
 )
